@@ -33,7 +33,7 @@ func cases(tier string, seed int64) []eng.Case {
 	var out []eng.Case
 	n := 200
 	if tier == "thorough" {
-		n = 2500
+		n = 12000
 	}
 	for i := 0; i < n; i++ {
 		logN := eng.Pick(r, 4, 4, 5, 6, 7)
